@@ -145,7 +145,7 @@ def rs2v(kernel=None):
 
 def coq_make(targets, timeout=1500):
     """Full .vo build (never -vos) of the given targets through the generated Makefile."""
-    missing = [g for g in ("CheckExcess.v", "ExitOps.v", "OptionTables.v", "SemiRule.v", "QuoteChoice.v", "ShouldFormat.v", "CtxOptions.v") if not os.path.exists(os.path.join(COQ, "gen", g))]
+    missing = [g for g in ("CheckExcess.v", "ExitOps.v", "OptionTables.v", "SemiRule.v", "QuoteChoice.v", "ShouldFormat.v", "CtxOptions.v", "RequireKind.v") if not os.path.exists(os.path.join(COQ, "gen", g))]
     if missing:
         os.makedirs(os.path.join(COQ, "gen"), exist_ok=True)
         rs2v()
@@ -210,7 +210,7 @@ def build_ml():
         # kernels regenerated by rs2v are extracted apart: a kernel that no longer compiles must only fail the checks built on it
         okg, outg = coq_make(["theories/ExtractGen.vo"])
         if not okg:
-            for f in ("SemiGen.ml", "SemiGen.mli", "drv_semi", "ShouldGen.ml", "ShouldGen.mli", "drv_pos"):
+            for f in ("SemiGen.ml", "SemiGen.mli", "drv_semi", "ShouldGen.ml", "ShouldGen.mli", "drv_pos", "ReqGen.ml", "ReqGen.mli", "drv_req"):
                 try: os.remove(os.path.join(MLDIR, f))
                 except OSError: pass
         sh([os.path.join(ROOT, "ml", "build.sh")])
